@@ -117,6 +117,7 @@ type Config struct {
 	MaxPaths     int
 	Env          *EnvConfig
 	Params       map[string]int
+	Replay       []ReplayItem // non-nil: one concrete run on these intrinsic values
 	IntMode      bool
 	Fallback     string // second solver tried when the first answers unknown
 	QueryLog     string // file to log deciding queries for cross-checking
@@ -130,6 +131,7 @@ type Stats struct {
 	SolverTime                       time.Duration
 	Inconclusive                     int
 	InconclusiveFeas                 int
+	ReplayOut                        []string
 	FallbackQueries, FallbackDecided int
 	SolverErrors                     int
 	Unwind                           []string
@@ -736,6 +738,9 @@ func (w *worker) runPath(fn *ssaFunc, jb job) (newJobs []job) {
 	i.w = w
 	ps := &pathState{tt: newTermTable(), prefix: prefix, covers: map[string]bool{}, jobModel: jb.Model}
 	i.path = ps
+	if w.cfg.Replay != nil {
+		i.replay = &replayState{items: w.cfg.Replay}
+	}
 	ps.tt.i = i
 	i.maxSteps = w.cfg.MaxSteps
 	completed := false
@@ -790,6 +795,9 @@ func (w *worker) runPath(fn *ssaFunc, jb job) (newJobs []job) {
 	st := w.stats
 	st.SolverTime += w.solver.Time - t0
 	_ = q0
+	if i.replay != nil {
+		st.ReplayOut = i.replay.out
+	}
 	st.Inconclusive += ps.inconcl
 	st.InconclusiveFeas += ps.inconclFeas
 	st.SolverErrors = st.SolverErrors + w.solver.Errors
